@@ -51,6 +51,15 @@ reg("C15", "model_checking",
     "A timed-out write is assumed not applied; reads succeed; CPython's set.pop() hand-out order is normalised by the harness after each step (the un-normalised order is run statelessly to depth 2/3).",
     "DESIGN.md section 3 C15")
 
+reg("C05", "model_checking",
+    "explicit-state search (level-synchronous BFS on canonical states) of the real AshProtocol transmit path under every per-attempt peer reaction, virtual time",
+    "Every reachable state of {queued sends x per-attempt peer reaction from a 14-item menu (covering ACK / DATA, stale ACK, NAK, silence, ERROR 0x51/0x80, RSTACK, "
+    "reaction coinciding with the ACK timeout in one loop iteration, NAK+ERROR in one read, 0.3 s late reactions) x failure -> silent link -> RSTACK recovery -> further send}, "
+    "closed for each listed configuration incl. warm-ups that wrap the frame number and drive the adaptive timeout to its floor; the timestamped wire trace is judged incrementally "
+    "(budget, same frmNum/payload, reTx flag, repeat timing in [0.4, 3.2] s or at once on NAK, single failure report, silence until RSTACK, consecutive numbering, one outstanding frame).",
+    "Rare reactions draw on per-run budgets (stated in the evidence); oracle timing constants are the UG101 values hard-coded in the check; model = implementation on a hand-stepped asyncio loop.",
+    "DESIGN.md section 3 C05")
+
 ALL = ["C%02d" % i for i in range(1, 21)]
 
 
